@@ -126,7 +126,13 @@ where
             let mut off = 0u32;
             let mut cmds = Vec::new();
             for sg in segs {
-                cmds.push(Cmd::Frame(f.tcp(1000u32.wrapping_add(off), c, F_PSH | F_ACK, &sg)));
+                let mut fr = f.tcp(1000u32.wrapping_add(off), c, F_PSH | F_ACK, &sg);
+                // every fourth conversation as a NIC delivers it: frames below the 60-byte Ethernet
+                // minimum zero-padded (bytes behind the IP datagram are not part of the stream)
+                if i % 4 == 3 && fr.len() < 60 {
+                    fr.resize(60, 0);
+                }
+                cmds.push(Cmd::Frame(fr));
                 off = off.wrapping_add(sg.len() as u32);
             }
             cmds
@@ -358,6 +364,42 @@ pub fn all_bytes_stage(rep: &mut Report, env: &AppEnv, stage: &str, bases: &[Vec
         r[p] = d[1] as u8;
         (paths[d[2] as usize], r)
     });
+}
+
+/// Source-address alphabet: one request from every FORM of client address (ordinary, .255 and .0
+/// host addresses of wider subnets, limited broadcast, unspecified, multicast, loopback,
+/// link-local, the responder's own address, IPv4-mapped / -compatible / NAT64 IPv6 forms), as a
+/// datagram and / or behind [SYN, data]; judged by the reference model (which applies the deny
+/// list and nothing else to source addresses).
+pub fn source_alphabet_stage(rep: &mut Report, env: &AppEnv, stage: &str, payload: &[u8], tcp: bool, udp: bool) {
+    let t0 = std::time::Instant::now();
+    let s4: Vec<Ip> = vec![cli4(), cli4b(), Ip::V4([0, 0, 0, 0]), Ip::V4([255, 255, 255, 255]), Ip::V4([10, 0, 1, 255]), Ip::V4([10, 0, 0, 255]), Ip::V4([10, 0, 1, 0]), Ip::V4([224, 0, 0, 9]), Ip::V4([127, 0, 0, 1]), Ip::V4([169, 254, 1, 1]), srv4(), Ip::V4([192, 0, 2, 255]), Ip::V4([1, 255, 255, 255])];
+    let s6: Vec<Ip> = ["2001:db8::9", "2001:db8::a", "::ffff:10.0.0.9", "::10.0.0.9", "::", "::1", "fe80::9", "ff02::9", "2001:db8::1", "2001:db8::ff", "64:ff9b::a00:9", "2001:db8::ffff:ffff:ffff:ffff", "::ffff:10.0.1.255"].iter().map(|a| Ip::parse(a)).collect();
+    let n = (s4.len() + s6.len()) as u64;
+    let key = env.cfg.key;
+    let modes: Vec<bool> = [(udp, false), (tcp, true)].iter().filter(|m| m.0).map(|m| m.1).collect();
+    let nm = modes.len() as u64;
+    let opts = RunOpts::new(stage).stateful().chunk(64);
+    engine::run(
+        &env.cfg,
+        n * nm,
+        &opts,
+        |i| {
+            let k = (i / nm) as usize;
+            let v6 = k >= s4.len();
+            let mut f = flow(v6, 40000, 3478);
+            f.cip = if v6 { s6[k - s4.len()] } else { s4[k] };
+            if modes[(i % nm) as usize] {
+                let c = crate::sip::cookie_guess(key, &f.cip, &f.sip, f.cport, f.sport);
+                vec![Cmd::Frame(f.tcp(100, 0, F_SYN, b"")), Cmd::Frame(f.tcp(101, c.wrapping_add(1), F_PSH | F_ACK, payload))]
+            } else {
+                vec![Cmd::Frame(f.udp(payload))]
+            }
+        },
+        |_it: &Item, _s: &mut Sink| {},
+        &mut rep.sink,
+    );
+    rep.stage(stage, "one request from 13 IPv4 and 13 IPv6 forms of client address (.255 / .0 host addresses, broadcast, unspecified, multicast, loopback, link-local, the responder's own, IPv4-mapped / -compatible / NAT64), as datagram and / or behind [SYN, data], monitored", n * nm, t0);
 }
 
 /// Datagrams whose source port EQUALS their destination port (53 -> 53, 5353 -> 5353, every N ->
@@ -848,6 +890,7 @@ pub fn run_c13(rep: &mut Report, thorough: bool) {
         long_conv_stage(rep, &env, &format!("http-long-connection-{}", tag), None, &core[..24.min(core.len())], if thorough { 1500 } else { 300 });
         // the peer's advertised window (and urgent pointer) do not shape the answer
         window_stage(rep, &env, &format!("http-window-{}", tag), b"GET /w HTTP/1.1\r\nHost: x\r\n\r\n", 1024);
+        source_alphabet_stage(rep, &env, &format!("http-sources-{}", tag), b"GET /s HTTP/1.1\r\nHost: x\r\n\r\n", true, true);
         envelope_stage(rep, &env, &format!("http-envelope-{}", tag), b"GET /e HTTP/1.1\r\nHost: x\r\n\r\n", true, true);
         if env.cfg.self_ips.is_empty() || thorough {
             let convs: Vec<(String, Vec<Vec<u8>>)> = busy_convs().into_iter().filter(|c| ["http"].iter().any(|p| c.0.starts_with(p))).collect();
@@ -1000,6 +1043,7 @@ pub fn run_c14(rep: &mut Report, thorough: bool) {
             (p4, appdns::build_query(0x0e0f, 0x0100, &qs))
         });
         crate::props::pairs::pair_histories(rep, &env.cfg, &format!("dns-pair-histories-{}", tag), &crate::props::pairs::datagram_variants("dns", &[appdns::build_query(5, 0x0100, &q1), appdns::build_query(6, 0, &[(dns_labels("a.b"), 1, 1), (dns_labels("c"), 1, 1)]), appdns::build_query(7, 0x0100, &[(dns_labels("version.bind"), 16, 3)])]));
+        source_alphabet_stage(rep, &env, &format!("dns-sources-{}", tag), &appdns::build_query(5, 0x0100, &q1), false, true);
         equal_ports_stage(rep, &env, &format!("dns-equal-ports-{}", tag), &appdns::build_query(5, 0x0100, &q1));
         envelope_stage(rep, &env, &format!("dns-envelope-{}", tag), &appdns::build_query(5, 0x0100, &q1), false, true);
         if env.cfg.self_ips.is_empty() || thorough {
@@ -1394,6 +1438,7 @@ pub fn run_c15(rep: &mut Report, thorough: bool) {
                 all_words_stage(rep, &env, &format!("stun-all-words-{}", tag), &[stun_magic(&stun_attr(3, &[0, 0, 0, 2]), &ID12), stun_classic(&stun_attr(3, &[0, 0, 0, 2]), &ID16)], false, thorough);
             }
             all_bytes_stage(rep, &env, &format!("stun-all-byte-values-{}", tag), &[stun_magic(&[], &ID12), stun_classic(&stun_attr(3, &[0, 0, 0, 2]), &ID16), stun_magic(&stun_attr(0x8022, b"abcd"), &ID12)], true, true);
+            source_alphabet_stage(rep, &env, &format!("stun-sources-{}", tag), &stun_magic(&stun_attr(0x8022, &[b's'; 256]), &ID12), true, true);
             equal_ports_stage(rep, &env, &format!("stun-equal-ports-{}", tag), &stun_classic(&stun_attr(3, &[0, 0, 0, 2]), &ID16));
             envelope_stage(rep, &env, &format!("stun-envelope-change-{}", tag), &stun_classic(&stun_attr(3, &[0, 0, 0, 2]), &ID16), false, true);
             // every assigned attribute type (RFC 3489 / 5389 / 5780 ranges) with WELL-FORMED values
@@ -1581,6 +1626,8 @@ pub fn run_c16(rep: &mut Report, thorough: bool) {
         all_bytes_stage(rep, &env, &format!("rpc-all-byte-values-udp-{}", tag), &[apprpc::build_call(0x61626364, 2, 100000, 2, 3, &[], &[]), apprpc::build_call(0x61626364, 2, 100000, 4, 4, &[1, 2, 3, 4], &[5, 6, 7, 8])], false, true);
         all_bytes_stage(rep, &env, &format!("rpc-all-byte-values-tcp-{}", tag), &[apprpc::with_record_mark(&apprpc::build_call(0x61626364, 2, 100000, 3, 3, &[], &[]))], true, false);
         envelope_stage(rep, &env, &format!("rpc-envelope-tcp-{}", tag), &apprpc::with_record_mark(&apprpc::build_call(0x61626364, 2, 100000, 3, 3, &[], &[])), true, false);
+        source_alphabet_stage(rep, &env, &format!("rpc-sources-udp-{}", tag), &apprpc::build_call(0x61626364, 2, 100000, 4, 3, &[], &[]), false, true);
+        source_alphabet_stage(rep, &env, &format!("rpc-sources-tcp-{}", tag), &apprpc::with_record_mark(&apprpc::build_call(0x61626364, 2, 100000, 4, 3, &[], &[])), true, false);
         equal_ports_stage(rep, &env, &format!("rpc-equal-ports-{}", tag), &apprpc::build_call(0x61626364, 2, 100000, 4, 3, &[], &[]));
         envelope_stage(rep, &env, &format!("rpc-envelope-udp-{}", tag), &apprpc::build_call(0x61626364, 2, 100000, 2, 3, &[], &[]), false, true);
         // destination ports and addresses (UDP, monitor)
@@ -1841,6 +1888,8 @@ pub fn run_c17(rep: &mut Report, thorough: bool) {
             }
         }
             window_stage(rep, &env, &format!("smb2-window-{}", tag), &pls[1], 512);
+            source_alphabet_stage(rep, &env, &format!("smb1-sources-{}", tag), &pls[0], true, false);
+            source_alphabet_stage(rep, &env, &format!("smb2-sources-{}", tag), &pls[1], true, false);
             envelope_stage(rep, &env, &format!("smb1-envelope-{}", tag), &pls[0], true, true);
             all_bytes_stage(rep, &env, &format!("smb-all-byte-values-{}", tag), &pls, true, false);
             if env.cfg.self_ips.is_empty() || thorough {
@@ -2132,6 +2181,8 @@ pub fn run_c18(rep: &mut Report, thorough: bool) {
             }
         }
             window_stage(rep, &env, &format!("ghost-window-{}", tag), &ghost_request(), 256);
+            source_alphabet_stage(rep, &env, &format!("ssh-sources-{}", tag), b"SSH-2.0-s\r\n", true, true);
+            source_alphabet_stage(rep, &env, &format!("ghost-sources-{}", tag), &ghost_request(), true, true);
             envelope_stage(rep, &env, &format!("ssh-envelope-{}", tag), b"SSH-2.0-e\r\n", true, true);
             if env.cfg.self_ips.is_empty() || thorough {
                 all_words_stage(rep, &env, &format!("ssh-ghost-all-words-{}", tag), &[b"SSH-2.0-ab c\r\n".to_vec(), ghost_request()], true, thorough);
